@@ -72,6 +72,25 @@ def r1_r2_ingestion(repo, rep):
       if isinstance(sub_, ast.Attribute) and sub_.attr in ('iloc', 'iat', 'values', 'to_numpy', 'iterrows', 'itertuples', 'head', 'tail') \
           and norm(sub_.value).split('.')[0].split('[')[0] == frame:
         bad.append(sub_)
+  # order-dependent selections on the raw frame (keep-first de-duplication, first/last/nth, head/tail)
+  od = []
+  for n in ctx.g.nodes:
+    if n.kind != 'stmt' or (pivots and pivots[0] in ctx.g.dominators(cfgmod.no_exc).get(n, ()) and n is not pivots[0]):
+      continue
+    for sub_ in walk_no_nested(n.ast):
+      if isinstance(sub_, ast.Call) and isinstance(sub_.func, ast.Attribute) and sub_.func.attr in ('drop_duplicates', 'first', 'last', 'nth', 'head', 'tail', 'duplicated', 'cumcount') \
+          and norm(sub_.func.value).split('.')[0].split('[')[0].split('(')[0] == frame:
+        od.append(sub_)
+  piv_all = [n for n in ctx.g.nodes if n.kind == 'stmt' and ('pivot_table(' in norm(n.ast) or '.pivot(' in norm(n.ast))]
+  for n in piv_all:
+    t_ = norm(ctx.rd.expand(n, n.ast.value if isinstance(n.ast, ast.Assign) else n.ast, aliases=True)[0]) if isinstance(n.ast, ast.Assign) else norm(n.ast)
+    for w_ in ('drop_duplicates(', '.first()', '.last()', '.nth(', '.head(', '.tail('):
+      if w_ in t_:
+        od.append(n.ast)
+  rep.check(not od, 'R2/label-based', 'no order-dependent selection (keep-first de-duplication, head/tail, first/last) on the raw rows', f.qualname,
+            '; '.join(norm(b)[:60] for b in od)[:140],
+            'the raw rows go through an order-dependent selection (%s): with repeated (geo, date) records the result depends on the order of the input rows' % '; '.join(norm(b)[:50] for b in od)[:120],
+            f.loc(od[0]) if od else f.loc())
   rep.check(not bad, 'R2/label-based', 'the raw frame is never accessed by position before the pivot', f.qualname, '; '.join(norm(b) for b in bad)[:100],
             'the raw long-format frame is accessed positionally (%s): the result depends on the row order of the input' % '; '.join(norm(b) for b in bad)[:80],
             f.loc(bad[0]) if bad else f.loc())
@@ -117,6 +136,42 @@ def r3_order_taint(repo, rep):
       n += 1
       rep.check(ok, 'R3/order-taint', 'the installed geo order is taken from the data (per-geo impact table), not from a set', ga.qualname, norm(t)[:120],
                 'the geo index `%s` does not take its order from the data-derived impact table' % norm(t)[:100], ga.loc(node.ast))
+  # truncation / ranking of geo IDs must be ordered by the data, never by the IDs themselves
+  for fname in ('geos_within_constraints', 'geo_assignments'):
+    ff = repo.cls(MM).getters.get(fname)
+    if ff is None:
+      continue
+    cx = FuncCtx.of(ff)
+    for node in cx.g.nodes:
+      for e in cx.node_exprs(node):
+        for sub in walk_no_nested(e):
+          seqs = []
+          if isinstance(sub, ast.Subscript) and isinstance(sub.slice, ast.Slice) and isinstance(sub.ctx, ast.Load):
+            seqs.append(sub.value)
+          if isinstance(sub, ast.Assign) and any(norm(t_) == 'self.data.geo_index' for t_ in sub.targets):
+            seqs.append(sub.value)
+          for sq in seqs:
+            ex = cx.rd.expand(node, sq, depth=10)[0]
+            for call in [c for c in ast.walk(ex) if isinstance(c, ast.Call)]:
+              fn = norm(call.func)
+              if fn not in ('sorted',) and not fn.endswith('.sort'):
+                continue
+              n += 1
+              key = au.kwarg(call, 'key')
+              id_dep = key is None
+              if isinstance(key, ast.Lambda):
+                arg = key.args.args[0].arg
+                for x in ast.walk(key.body):
+                  if isinstance(x, ast.Name) and x.id == arg:
+                    inside_lookup = False
+                    for sb in ast.walk(key.body):
+                      if isinstance(sb, ast.Subscript) and any(y is x for y in ast.walk(sb.slice)):
+                        inside_lookup = True
+                    if not inside_lookup:
+                      id_dep = True
+              rep.check(not id_dep, 'R3/order-taint', '%s: ranking `%s` orders geos by data only' % (fname, norm(call)[:50]), ff.qualname, norm(call)[:120],
+                        '%s ranks geo IDs with `%s`, whose order depends on the IDs themselves (ties or the whole order follow the spelling of the IDs): renaming the geos changes which geos survive the cut'
+                        % (fname, norm(call)[:90]), ff.loc(sub))
   rep.floor('order-taint sites examined', n, 1)
 
 
